@@ -56,16 +56,10 @@ def run(tier: str) -> Run:
     run.trusted = ['python csv/float parsing', 'sa/scipp_model.py']
     adir = os.path.dirname(mi.path)
 
-    # ---- R1 exact-match lookup -------------------------------------------------
-    r1 = run.rule('R1', 'lookup returns a row only when its first field == the requested name', 1)
-    fi = repo.func('atoms', '_find_line_with_isotope')
-    ok, detail = check_lookup(fi)
-    r1.check(ok, '_find_line_with_isotope', loc(fi), detail, key='lookup')
-
-    # ---- R2 header lines -----------------------------------------------------------
-    r2 = run.rule('R2', 'lines skipped by each loader == leading non-data lines of its file', 3)
+    # ---- tables as data (independent reader) ---------------------------------------------
     r4 = run.rule('R4', 'table lint: constant field count, unique keys, numeric-or-blank cells', 3)
     tables = {}
+    heads = {}
     for fname, spec in FILES.items():
         path = os.path.join(adir, fname)
         if not os.path.exists(path):
@@ -80,11 +74,6 @@ def run(tier: str) -> Run:
                 n_head += 1
             else:
                 break
-        lfi = repo.func(*spec['loader'])
-        opened, skipped = loader_skips(lfi)
-        r2.check(opened == fname and skipped == n_head, fname, loc(lfi),
-                 {'file_opened': opened, 'lines_skipped_by_loader': skipped, 'leading_non_data_lines': n_head,
-                  'first_lines': lines[:3]}, key=fname)
         rows = list(csv.reader(lines[n_head:]))
         keys = [r[0] for r in rows]
         bad_len = [r[0] for r in rows if len(r) != spec['fields']]
@@ -93,22 +82,51 @@ def run(tier: str) -> Run:
         r4.check(not bad_len and not dup and not bad_cell and len(rows) > 0, fname, f'src/scippneutron/atoms/{fname}',
                  {'rows': len(rows), 'fields': spec['fields'], 'wrong_length': bad_len[:3], 'duplicates': dup[:3],
                   'non_numeric': bad_cell[:3]}, key=fname)
-        tables[fname] = rows
+        tables[fname] = {r[0]: r[1:] for r in rows}
+        heads[fname] = [ln.split(',')[0] for ln in lines[:n_head]]
     run.extra['rows'] = {k: len(v) for k, v in tables.items()}
 
-    # ---- R3 column mapping + _assemble_scalar -------------------------------------------
-    r3 = run.rule('R3', 'column pairs (2k, 2k+1) map to the 8 NIST fields with units fm x4, barn x4; weights and masses in Da', 10)
-    pfi = repo.func('atoms', 'ScatteringParams._parse_line')
-    mapping = parse_line_mapping(pfi)
-    for k, (field, unit) in enumerate(NIST_COLUMNS):
-        got = mapping.get(field)
-        r3.check(got == (2 * k, 2 * k + 1, unit), field, loc(pfi), {'computed': got, 'expected': (2 * k, 2 * k + 1, unit)}, key=field)
-    for lname in ('_load_atomic_weight', '_load_atomic_mass'):
-        lfi = repo.func('atoms', lname)
-        units = [ast.literal_eval(c.args[2]) for c in ast.walk(lfi.node)
-                 if isinstance(c, ast.Call) and ast.unparse(c.func) == '_assemble_scalar' and len(c.args) == 3
-                 and isinstance(c.args[2], ast.Constant)]
-        r3.check(units == ['Da'], lname, loc(lfi), {'units': units}, key=lname)
+    # ---- R1/R2/R3: partial evaluation of the three loaders on the bundled files -----------------
+    r1 = run.rule('R1', 'a name that is not exactly a key of the table is refused (near misses: case, blanks, prefixes, header words)', 300)
+    r2 = run.rule('R2', 'every key of the table is found (header lines are skipped, data lines are not)', 300)
+    r3 = run.rule('R3', 'the entry returned is the tabulated one: value, variance = uncertainty^2, blank -> None, units fm x4 / barn x4 / Da', 300)
+    stride = 1 if tier == 'thorough' else 37
+    jobs = []
+    for fname, spec in FILES.items():
+        keys = list(tables[fname])
+        step = stride if len(keys) > 500 else 1
+        sample = sorted(set(keys[::step]) | {keys[0], keys[-1], keys[1], keys[-2]})
+        miss = set(heads[fname]) | {''}
+        for k in sample[:: (1 if len(keys) <= 500 else 1)][:400 if tier != 'thorough' else None]:
+            for cand in (k.lower(), k.upper(), k + ' ', ' ' + k, k[:-1], k + 'x', k + ',', '0' + k):
+                if cand not in tables[fname]:
+                    miss.add(cand)
+        miss = sorted(miss)
+        if tier != 'thorough':
+            miss = miss[::max(1, len(miss) // 150)]
+        jobs.append((fname, sample, miss))
+    import concurrent.futures as cf
+    chunks = []
+    for fname, sample, miss in jobs:
+        n = 16 if tier == 'thorough' else 8
+        for i in range(n):
+            chunks.append((fname, sample[i::n], miss[i::n]))
+    results = []
+    with cf.ProcessPoolExecutor(max_workers=16) as ex:
+        for part in ex.map(_lookup_chunk, chunks):
+            results.extend(part)
+    bad = {'R1': {}, 'R2': {}, 'R3': {}}
+    for fname, name, kind, verdict, detail in results:
+        rule = {'miss': 'R1', 'found': 'R2', 'value': 'R3'}[kind]
+        if verdict:
+            {'R1': r1, 'R2': r2, 'R3': r3}[rule].ok(f'{fname}:{name}')
+        else:
+            bad[rule].setdefault(fname, (name, detail))
+    for rule, rr in (('R1', r1), ('R2', r2), ('R3', r3)):
+        for fname, spec in FILES.items():
+            lfi = repo.func(*spec['loader'])
+            b = bad[rule].get(fname)
+            rr.check(b is None, fname, loc(lfi), {'name': b[0], 'problem': b[1]} if b else {}, key=fname)
 
     r3b = run.rule('R3b', '_assemble_scalar: blank value -> None; variance = uncertainty**2 (0 stays 0); blank uncertainty -> no variance', 4)
     afi = repo.func('atoms', '_assemble_scalar')
@@ -130,21 +148,40 @@ def run(tier: str) -> Run:
                 got = repr(v)
         r3b.check(ok and got == want, f'_assemble_scalar{args}', loc(afi), {'computed': got, 'expected': want}, key=f'assemble{args}')
 
-    # ---- R5 isotope-name pattern ------------------------------------------------------
-    r5 = run.rule('R5', 'isotope name pattern: optional digits then one letters-only group, matched at the start; element vs isotope by ==', 2)
+    # ---- R5 isotope names ------------------------------------------------------------------
+    r5 = run.rule('R5', 'element of an isotope name = the letters after optional leading digits (finite-domain evaluation); '
+                        'Atom.for_isotope: z and weight of that element, mass only for isotopes', 60)
     nfi = repo.func('atoms', '_parse_isotope_name')
-    pat = None
-    how = None
-    for c in ast.walk(nfi.node):
-        if isinstance(c, ast.Call) and isinstance(c.func, ast.Attribute) and c.func.attr in ('match', 'fullmatch', 'search') \
-                and c.args and isinstance(c.args[0], ast.Constant):
-            pat, how = c.args[0].value, c.func.attr
-    ok, detail = check_pattern(pat, how)
+    ok, detail = check_name_parser(repo, nfi, 5 if tier == 'thorough' else 4)
     r5.check(ok, '_parse_isotope_name', loc(nfi), detail, key='pattern')
     afi2 = repo.func('atoms', 'Atom.for_isotope')
-    eq = [ast.unparse(n) for n in ast.walk(afi2.node) if isinstance(n, ast.Compare) and len(n.ops) == 1 and isinstance(n.ops[0], ast.Eq)
-          and {ast.unparse(n.left), ast.unparse(n.comparators[0])} == {'element', 'isotope'}]
-    r5.check(bool(eq), 'Atom.for_isotope', loc(afi2), {'comparison': eq}, key='element-vs-isotope')
+    weights, masses = tables['atomic_weights.csv'], tables['atomic_masses.csv']
+    names = list(weights)[:: (1 if tier == 'thorough' else 3)] + list(masses)[:: (40 if tier == 'thorough' else 120)] + ['2H', '3He', '50V', 'Xx', '1Xx', '999H']
+    T.reset()
+    it = Interp(repo, AtomsModel(repo))
+    problem = None
+    for nm in names:
+        el = nm.lstrip('0123456789')
+        outs = it.run_all(lambda i, n=nm: i.call_function(afi2, [n], {}))
+        if el not in weights or (el != nm and nm not in masses):
+            if not (len(outs) == 1 and outs[0].kind == 'raise'):
+                problem = problem or (nm, 'not refused')
+            else:
+                r5.ok(f'for_isotope({nm!r}) refused')
+            continue
+        got = outs[0].value if len(outs) == 1 and outs[0].kind == 'return' else None
+        if not isinstance(got, SObj):
+            problem = problem or (nm, f'outcome {[(o.kind, o.exc_type, o.where) for o in outs]}')
+            continue
+        a = got.attrs
+        want_w = expect_scalar(weights[el][1], weights[el][2], 'Da')
+        want_m = None if el == nm else expect_scalar(masses[nm][0], masses[nm][1], 'Da')
+        if a.get('isotope') != nm or a.get('z') != int(weights[el][0]) or scalar_of(a.get('_atomic_weight')) != want_w or scalar_of(a.get('_atomic_mass')) != want_m:
+            problem = problem or (nm, {'z': a.get('z'), 'weight': scalar_of(a.get('_atomic_weight')), 'mass': scalar_of(a.get('_atomic_mass')),
+                                       'expected': {'z': int(weights[el][0]), 'weight': want_w, 'mass': want_m}})
+        else:
+            r5.ok(f'for_isotope({nm!r})')
+    r5.check(problem is None, 'Atom.for_isotope', loc(afi2), {'name': problem[0], 'problem': problem[1]} if problem else {}, key='element-vs-isotope')
 
     # ---- R6 attenuation coefficient ------------------------------------------------------
     r6 = run.rule('R6', 'attenuation = n * (sigma_s + sigma_a * lambda / 1.7982 angstrom), dimension 1/length, no integer truncation', 4)
@@ -190,100 +227,111 @@ def run(tier: str) -> Run:
     return run
 
 
-def check_lookup(fi):
-    """Every `return <non-None>` sits under `if <first field> == <requested name>`."""
-    param = fi.node.args.args[0].arg
-    first_field = None
-    for n in ast.walk(fi.node):
-        if isinstance(n, ast.Assign) and isinstance(n.targets[0], ast.Tuple) and isinstance(n.value, ast.Call) \
-                and isinstance(n.value.func, ast.Attribute) and n.value.func.attr == 'split':
-            first_field = n.targets[0].elts[0].id
-            sep = n.value.args[0].value if n.value.args and isinstance(n.value.args[0], ast.Constant) else None
-            if sep != ',':
-                return False, {'split_separator': sep}
-    if first_field is None:
-        return False, {'problem': 'no `name, rest = line.split(",", 1)` found'}
-    guarded = []
-    unguarded = []
+class AtomsModel(Model):
+    """The scipp model plus the constant-folded standard-library calls of the loaders."""
 
-    def walk(body, guards):
-        for st in body:
-            if isinstance(st, ast.Return) and st.value is not None and not (isinstance(st.value, ast.Constant) and st.value.value is None):
-                (guarded if any(g for g in guards) else unguarded).append(ast.unparse(st))
-                if guards and not all(guards):
-                    pass
-            elif isinstance(st, ast.If):
-                t = st.test
-                good = isinstance(t, ast.Compare) and len(t.ops) == 1 and isinstance(t.ops[0], ast.Eq) \
-                    and {ast.unparse(t.left), ast.unparse(t.comparators[0])} == {first_field, param}
-                walk(st.body, [*guards, good])
-                walk(st.orelse, guards)
-            elif isinstance(st, ast.While | ast.For | ast.With | ast.Try):
-                walk(st.body, guards)
-                walk(getattr(st, 'orelse', []), guards)
-    walk(fi.node.body, [])
-    tests = [ast.unparse(n.test) for n in ast.walk(fi.node) if isinstance(n, ast.If)]
-    return bool(guarded) and not unguarded, {'first_field': first_field, 'conditions': tests, 'unguarded_returns': unguarded}
+    def __init__(self, repo):
+        super().__init__()
+        self.repo = repo
+
+    def call_ext(self, interp, path, args, kwargs, node):
+        import io
+        import pathlib
+        if path == 'importlib.resources.files' and args and isinstance(args[0], str):
+            pkg = args[0].split('.')
+            return pathlib.Path(self.repo.root, 'src', *pkg)
+        if path in ('importlib.resources.open_text', 'importlib.resources.read_text') and len(args) >= 2 and all(isinstance(a, str) for a in args[:2]):
+            text = pathlib.Path(self.repo.root, 'src', *args[0].split('.'), args[1]).read_text(encoding='utf-8')
+            return io.StringIO(text) if path.endswith('open_text') else text
+        if path.startswith('re.') and path.split('.')[1] in ('match', 'fullmatch', 'search', 'compile', 'sub', 'split', 'findall') \
+                and all(isinstance(a, str | int) for a in args):
+            return getattr(re, path.split('.')[1])(*args, **kwargs)
+        if path == 'pathlib.Path' and all(isinstance(a, str | pathlib.PurePath) for a in args):
+            return pathlib.Path(*args)
+        if path == 'builtins.open' and args and isinstance(args[0], str | pathlib.PurePath) and str(args[0]).startswith(self.repo.root) \
+                and (len(args) < 2 or args[1] in ('r', 'rt')) and kwargs.get('mode', 'r') in ('r', 'rt'):
+            return io.StringIO(pathlib.Path(args[0]).read_text(encoding='utf-8'))
+        return super().call_ext(interp, path, args, kwargs, node)
 
 
-def loader_skips(fi):
-    """(file name opened, number of f.readline() statements before the lookup)."""
-    opened = None
-    skipped = 0
-    for n in ast.walk(fi.node):
-        if isinstance(n, ast.Call) and ast.unparse(n.func) == '_open_bundled_parameters_file' and n.args \
-                and isinstance(n.args[0], ast.Constant):
-            opened = n.args[0].value
-    for n in ast.walk(fi.node):
-        if isinstance(n, ast.With):
-            for st in n.body:
-                if isinstance(st, ast.Expr) and isinstance(st.value, ast.Call) and isinstance(st.value.func, ast.Attribute) \
-                        and st.value.func.attr == 'readline':
-                    skipped += 1
-                elif isinstance(st, ast.For | ast.While):
-                    skipped = -1
-    return opened, skipped
+def scalar_of(v):
+    if v is None:
+        return None
+    if isinstance(v, SVar):
+        return (v.members.get('value'), v.members.get('variance'), repr(v.unit))
+    return repr(v)
 
 
-def parse_line_mapping(fi):
-    out = {}
-    for n in ast.walk(fi.node):
-        if isinstance(n, ast.Call) and ast.unparse(n.func).endswith('ScatteringParams'):
-            for kw in n.keywords:
-                c = kw.value
-                if isinstance(c, ast.Call) and ast.unparse(c.func) == '_assemble_scalar' and len(c.args) == 3:
-                    idx = []
-                    for a in c.args[:2]:
-                        if isinstance(a, ast.Subscript) and ast.unparse(a.value) == 'line' and isinstance(a.slice, ast.Constant):
-                            idx.append(a.slice.value)
-                    unit = c.args[2].value if isinstance(c.args[2], ast.Constant) else None
-                    if len(idx) == 2:
-                        out[kw.arg] = (idx[0], idx[1], unit)
-    # `line` must be the remainder split on ','
-    splits = [ast.unparse(n) for n in ast.walk(fi.node) if isinstance(n, ast.Call) and isinstance(n.func, ast.Attribute) and n.func.attr == 'split']
-    if not any("split(',')" in s for s in splits):
-        return {}
+def expect_scalar(value: str, std: str, unit: str):
+    if value == '':
+        return None
+    return (float(value), float(std) ** 2 if std != '' else None, unit)
+
+
+_WORKER = {}
+
+
+def _lookup_chunk(job):
+    """Interpret the loader of one table for a list of keys and a list of near misses."""
+    fname, keys, misses = job
+    if 'repo' not in _WORKER:
+        _WORKER['repo'] = Repo()
+    repo = _WORKER['repo']
+    spec = FILES[fname]
+    lfi = repo.func(*spec['loader'])
+    path = os.path.join(os.path.dirname(repo.module('atoms').path), fname)
+    with open(path, encoding='utf-8', newline='') as f:
+        lines = f.read().splitlines()
+    table = {}
+    for r in csv.reader(lines):
+        if r and not r[0].startswith('#'):
+            table.setdefault(r[0], r[1:])
+    T.reset()
+    it = Interp(repo, AtomsModel(repo))
+    out = []
+    for name in keys:
+        row = table[name]
+        outs = it.run_all(lambda i, n=name: i.call_function(lfi, [n], {}))
+        if len(outs) != 1 or outs[0].kind != 'return':
+            out.append((fname, name, 'found', False, f'key of the table is not found: {[(o.kind, o.exc_type, o.where, getattr(o, "exc_args", ())) for o in outs]}'))
+            continue
+        out.append((fname, name, 'found', True, ''))
+        v = outs[0].value
+        if fname == 'scattering_parameters.csv':
+            ok = isinstance(v, SObj) and v.attrs.get('isotope') == name
+            diffs = {}
+            if ok:
+                for k, (field, unit) in enumerate(NIST_COLUMNS):
+                    want = expect_scalar(row[2 * k], row[2 * k + 1], unit)
+                    got = scalar_of(v.attrs.get(field))
+                    if got != want:
+                        diffs[field] = {'returned': got, 'tabulated': want}
+            out.append((fname, name, 'value', ok and not diffs, diffs if ok else f'returned {v!r}'))
+        elif fname == 'atomic_weights.csv':
+            want = (int(row[0]), expect_scalar(row[1], row[2], 'Da'))
+            got = (v[0], scalar_of(v[1])) if isinstance(v, tuple) and len(v) == 2 else repr(v)
+            out.append((fname, name, 'value', got == want, {'returned': got, 'tabulated': want}))
+        else:
+            want = expect_scalar(row[0], row[1], 'Da')
+            got = scalar_of(v)
+            out.append((fname, name, 'value', got == want, {'returned': got, 'tabulated': want}))
+    for name in misses:
+        outs = it.run_all(lambda i, n=name: i.call_function(lfi, [n], {}))
+        ok = len(outs) == 1 and outs[0].kind == 'raise'
+        out.append((fname, name, 'miss', ok, '' if ok else f'{name!r} is not a key of the table but the loader returns {[scalar_of(o.value) if not isinstance(o.value, SObj | tuple) else repr(o.value)[:200] for o in outs]}'))
     return out
 
 
-def check_pattern(pat, how):
-    """Finite-domain evaluation of the constant pattern: over every string of length
-    <= 5 from a small alphabet it must behave like `digits* letters+` anchored at the
-    start, capturing exactly the maximal letter run."""
-    if pat is None:
-        return False, {'problem': 'no literal pattern'}
+def check_name_parser(repo, fi, max_len):
+    """Finite-domain evaluation of _parse_isotope_name over every string of length <= max_len from a
+    small alphabet: it must return the maximal ASCII-letter run that follows the leading digits, and
+    fail when there is none."""
     import itertools
-    detail = {'pattern': pat, 'method': how}
-    if how not in ('match', 'fullmatch'):
-        detail['problem'] = 'pattern is not anchored at the start'
-        return False, detail
-    try:
-        rx = re.compile(pat)
-    except re.error as ex:
-        return False, {**detail, 'problem': str(ex)}
+    T.reset()
+    it = Interp(repo, AtomsModel(repo))
     alphabet = '19aZ _-,'
     n = 0
-    for ln in range(0, 6):
+    for ln in range(0, max_len + 1):
         for tup in itertools.product(alphabet, repeat=ln):
             s_ = ''.join(tup)
             n += 1
@@ -294,11 +342,8 @@ def check_pattern(pat, how):
             while j < len(s_) and s_[j].isascii() and s_[j].isalpha():
                 j += 1
             want = s_[i:j] if j > i else None
-            m = getattr(rx, how)(s_)
-            got = m[1] if m else None
-            if how == 'fullmatch':
-                want = want if j == len(s_) else None
-            if got != want:
-                return False, {**detail, 'string': s_, 'captured': got, 'expected': want}
-    detail['strings_enumerated'] = n
-    return True, detail
+            outs = it.run_all(lambda i_, s=s_: i_.call_function(fi, [s], {}))
+            got = outs[0].value if len(outs) == 1 and outs[0].kind == 'return' else None
+            if len(outs) != 1 or got != want:
+                return False, {'string': s_, 'returned': got, 'expected': want, 'outcome': [(o.kind, o.exc_type) for o in outs]}
+    return True, {'strings_enumerated': n}
